@@ -818,6 +818,20 @@ fn main() {
         s11.extend(rep(1, 2)); s11.extend(rep(1, 2));
         s11.extend(rep(1, 0)); s11.extend(rep(1, 0)); s11.extend(rep(1, 0));
         scripts.push(("corpus finalize-above-commit: ", s11));
+        // (12) two candidates in one term: the winner's first heartbeat reaches the voter before the loser's delayed
+        //      RequestVote -- the vote cast in this term must still be remembered
+        let s12 = vec![Elect(0), Elect(2), dl(0, 1, "RV"), dl(1, 0, "RVR"), Heartbeat(0), dl(0, 1, "AE"), dl(2, 1, "RV"), dl(1, 2, "RVR"),
+                       dl(1, 0, "AER"), Propose(0), Propose(2), Heartbeat(0), Heartbeat(2), dl(0, 1, "AE"), dl(1, 0, "AER"), dl(2, 1, "AE"), dl(1, 2, "AER")];
+        scripts.push(("corpus delayed-vote-request-after-heartbeat: ", s12));
+        // (14) compaction that covers the whole log, then a candidate with an empty log: the compacted node must still
+        //      know its last position and refuse the vote
+        let mut s14 = elect(0, 1);
+        s14.extend(warm(0, 1));
+        s14.extend(vec![Propose(0), Propose(0), Propose(0)]);
+        s14.extend(rep(0, 1)); s14.extend(rep(0, 1));
+        s14.extend(vec![Finalize(0, 0), Compact(0), Elect(2), Elect(2), dl(2, 0, "RV"), dl(0, 2, "RVR"), dl(2, 1, "RV"), dl(1, 2, "RVR"),
+                        Propose(2), Heartbeat(2), dl(2, 0, "AE"), dl(0, 2, "AER"), dl(2, 1, "AE"), dl(1, 2, "AER")]);
+        scripts.push(("corpus empty-log-candidate-after-full-compaction: ", s14));
         for (ci, (tag, script)) in scripts.iter().enumerate() {
             let k = Knobs { n: 3, pre_vote: false, fast_path: false, geometric: false, adaptive: false, trailing: 0 };
             let dir = args.out.join("wal").join(format!("corpus{ci}"));
@@ -828,6 +842,23 @@ fn main() {
         let k5 = Knobs { n: 5, pre_vote: false, fast_path: false, geometric: false, adaptive: true, trailing: 0 };
         let dir = args.out.join("wal").join("corpus5");
         let (t, h, nt) = run_script(&s6, &k5, &mut rng, dir.clone(), &mut dist, "corpus split-vote-5: ");
+        let _ = std::fs::remove_dir_all(&dir);
+        w.push(&t, &h, nt);
+        // (13) five voters, the same node leads twice with its uncommitted tail overwritten and regrown in between; an
+        //      acknowledgement of its FIRST term is delayed across both leader changes and must be ignored
+        let el5 = |c: u64, v1: u64, v2: u64| vec![Elect(c), dl(c, v1, "RV"), dl(v1, c, "RVR"), dl(c, v2, "RV"), dl(v2, c, "RVR"),
+                                                   Heartbeat(c), dl(c, v1, "AE"), dl(v1, c, "AER"), dl(c, v2, "AE"), dl(v2, c, "AER")];
+        let mut s13 = el5(0, 1, 2);
+        s13.extend(vec![Propose(0), Propose(0), Propose(0), Heartbeat(0), dl(0, 1, "AE")]); // node 1 stores e1..e3, its ack stays in the network
+        s13.extend(el5(2, 3, 4));
+        s13.extend(vec![Propose(2), Heartbeat(2), dl(2, 0, "AE"), dl(0, 2, "AER"), dl(2, 3, "AE"), dl(3, 2, "AER")]); // node 0: e1..e3 -> f1
+        s13.extend(el5(0, 2, 3));
+        s13.extend(vec![Propose(0), Propose(0), dl(1, 0, "AER")]); // g2 g3 local; the term-1 acknowledgement (match 3) arrives
+        s13.extend(vec![Heartbeat(0), dl(0, 2, "AE"), dl(2, 0, "AER")]); // g2 g3 on nodes 0 and 2 only
+        s13.extend(el5(3, 4, 1)); // node 3 ([f1]) asks 4 (empty) and 1 (e1..e3, last term 1)
+        s13.extend(vec![Propose(3), Heartbeat(3), dl(3, 4, "AE"), dl(4, 3, "AER"), dl(3, 1, "AE"), dl(1, 3, "AER"), dl(3, 1, "AE"), dl(1, 3, "AER")]);
+        let dir = args.out.join("wal").join("corpus5b");
+        let (t, h, nt) = run_script(&s13, &k5, &mut rng, dir.clone(), &mut dist, "corpus stale-term-ack-5: ");
         let _ = std::fs::remove_dir_all(&dir);
         w.push(&t, &h, nt);
     }
